@@ -884,6 +884,14 @@ class Models:
                 else:
                     out.append(c + d if lo <= c <= hi else c)
             return SymSeq(out, seq.elem, seq.pytype)
+        if name in ('islower', 'isupper'):
+            pc = seq.plain_cells()
+            if pc is None:
+                raise CannotEncode(f'{name} on symbolic-extent view')
+            lo = lambda c: z3.And(z3.UGE(c, 97), z3.ULE(c, 122)) if is_sym(c) else 97 <= c <= 122
+            up = lambda c: z3.And(z3.UGE(c, 65), z3.ULE(c, 90)) if is_sym(c) else 65 <= c <= 90
+            want, other = (lo, up) if name == 'islower' else (up, lo)
+            return simp_bool(land(lor(*[want(c) for c in pc]), *[lnot(other(c)) for c in pc]))
         if name == 'find':
             return self.seq_find(seq, *args, **kwargs)
         if name in ('endswith', 'startswith'):
